@@ -36,6 +36,8 @@ func htOf(s string) hash.HashType {
 		return hash.HashType_HashType_BLAKE3
 	case "unknown":
 		return hash.HashType_HashType_UNKNOWN
+	case "neg1":
+		return hash.HashType(-1)
 	}
 	return hash.HashType(99)
 }
@@ -61,6 +63,20 @@ func bodyOf(wrapper, atom, vctx string) []byte {
 	if atom == "empty" {
 		return nil
 	}
+	if len(atom) > 1 && atom[0] == 'h' {
+		// "hd1@<ht>": the bytes of the digest of body d1 under that hash type (digest-length data)
+		base, ht := atom[1:3], atom[4:]
+		h, err := hash.Sum(htOf(ht), bodyOf(wrapper, base, vctx))
+		if err != nil {
+			return []byte("no-digest")
+		}
+		if wrapper == "pub" {
+			in := &pubmessage.PubMessageInner{Data: h.GetHash(), Channel: "chan-" + vctx}
+			b, _ := in.MarshalVT()
+			return b
+		}
+		return h.GetHash()
+	}
 	if wrapper == "pub" {
 		// the carried inner message always names the verifier's channel
 		in := &pubmessage.PubMessageInner{Data: []byte("payload-" + atom), Channel: "chan-" + vctx}
@@ -68,6 +84,13 @@ func bodyOf(wrapper, atom, vctx string) []byte {
 		return b
 	}
 	return []byte("body-" + atom + "-" + wrapper)
+}
+
+func qual(atom, ht string) string {
+	if atom == "hd1" {
+		return "hd1@" + ht
+	}
+	return atom
 }
 
 func mutateSig(sd []byte, class string, r int) []byte {
@@ -112,7 +135,7 @@ func init() {
 			if c.Kind == "sig" {
 				var ok, valid bool
 				pan := vio.Try(func() {
-					s, err := peer.NewSignature(ctxOf("raw", c.Sctx), signer, htOf(c.Sht), bodyOf("raw", c.Sbody, ""), false)
+					s, err := peer.NewSignature(ctxOf("raw", c.Sctx), signer, htOf(c.Sht), bodyOf("raw", qual(c.Sbody, c.Sht), ""), false)
 					if err != nil {
 						vio.Fatal("sign: %v", err)
 					}
@@ -120,7 +143,7 @@ func init() {
 					s.SigData = mutateSig(s.SigData, c.Sig, r)
 					s.PubKey = pkField(c.Pk, signer)
 					valid = s.Validate() == nil
-					ok, _ = s.VerifyWithPublic(ctxOf("raw", c.Vctx), vio.Key("signed/"+c.Claimed).GetPublic(), bodyOf("raw", c.Cbody, ""))
+					ok, _ = s.VerifyWithPublic(ctxOf("raw", c.Vctx), vio.Key("signed/"+c.Claimed).GetPublic(), bodyOf("raw", qual(c.Cbody, c.Sht), ""))
 				})
 				obs["accept"], obs["valid"], obs["panic"] = ok, valid, pan
 				out.Emit(obs)
@@ -134,7 +157,7 @@ func init() {
 					continue
 				}
 				pan := vio.Try(func() {
-					m, err := peer.NewSignedMsg(ctxOf(wr, c.Sctx), signer, htOf(c.Sht), bodyOf(wr, c.Sbody, c.Vctx))
+					m, err := peer.NewSignedMsg(ctxOf(wr, c.Sctx), signer, htOf(c.Sht), bodyOf(wr, qual(c.Sbody, c.Sht), c.Vctx))
 					if err != nil {
 						vio.Fatal("sign: %v", err)
 					}
@@ -146,7 +169,7 @@ func init() {
 					default:
 						m.FromPeerId = vio.PeerID("signed/" + c.Claimed).String()
 					}
-					m.Data = bodyOf(wr, c.Cbody, c.Vctx)
+					m.Data = bodyOf(wr, qual(c.Cbody, c.Sht), c.Vctx)
 					m.Signature.HashType = htOf(c.Cht)
 					m.Signature.SigData = mutateSig(m.Signature.SigData, c.Sig, r)
 					m.Signature.PubKey = pkField(c.Pk, signer)
